@@ -37,8 +37,9 @@ NamesBig     == [x \in 1..N |-> ToString(100 + x)]
 NamesLetter  == [x \in 1..N |-> <<"a", "b", "c", "d", "e">>[x]]
 NamesWord    == [x \in 1..N |-> <<"ab", "ba", "abc", "x1", "y_2">>[x]]
 NamesZero    == [x \in 1..N |-> ToString(x - 1)]            \* the integer 0 is an element like any other
-NameSets == <<NamesInt, NamesBig, NamesLetter, NamesWord, NamesZero>>
-NameKinds == <<"ints", "big", "letters", "words", "zero">>
+NamesDash    == [x \in 1..N |-> <<"--1", "---42", "-a", "a-b", "x--">>[x]]     \* not readable as integers
+NameSets == <<NamesInt, NamesBig, NamesLetter, NamesWord, NamesZero, NamesDash>>
+NameKinds == <<"ints", "big", "letters", "words", "zero", "dash">>
 
 \* the text determines the ranking: no two different rankings have a common rendering under the same names
 SmallVariants == [brace : BOOLEAN, lead : {""}, trail : {""}, prefix : {"", "r 1 : "}, sep : {", ", ","}]
@@ -50,7 +51,7 @@ RkJson(r) == [k \in DOMAIN r |-> SetToSortSeq(r[k], LAMBDA a, b : a < b)]
 
 Rendered ==
     { [text |-> Render(r, v, NameSets[k]), r |-> RkJson(r), naming |-> NameKinds[k]] :
-        r \in PartialRankings(1..N), v \in Variants, k \in 1..5 }
+        r \in PartialRankings(1..N), v \in Variants, k \in 1..6 }
 
 Alphabet == {"[", "]", "{", "}", ",", ":", " ", "a", "1"}
 Strings(len) == [1..len -> Alphabet]
@@ -58,8 +59,8 @@ Strings(len) == [1..len -> Alphabet]
 Export ==
     CASE What = "rendered" -> ndJsonSerialize(IOEnv.OUT_FILE, SetToSeq(Rendered))
       [] What = "strings"  -> ndJsonSerialize(IOEnv.OUT_FILE, SetToSeq(UNION {Strings(l) : l \in 0..MaxLen}))
-      [] What = "theorems" -> \A k \in 1..5 : Injective(NameSets[k], Variants)
-      [] What = "theorems_small" -> \A k \in 1..5 : Injective(NameSets[k], SmallVariants)
+      [] What = "theorems" -> \A k \in 1..6 : Injective(NameSets[k], Variants)
+      [] What = "theorems_small" -> \A k \in 1..6 : Injective(NameSets[k], SmallVariants)
 
 ASSUME Export
 =============================================================================
